@@ -4,6 +4,7 @@ import (
 	"bytes"
 	"crypto/tls"
 	"fmt"
+	sasl "github.com/emersion/go-sasl"
 	"strings"
 	"sync/atomic"
 	"time"
@@ -238,6 +239,11 @@ func runC18Reg(c *Ctx) {
 						}
 						cfg.Server, cfg.Proxy, cfg.Flood, cfg.PingFreq = "irc.test", s.EP.ProxyURL(idx%2 == 0), true, 0
 						cfg.Pass, cfg.EnableCapabilityNegotiation = pass, capn
+						if capn && idx%4 == 1 {
+							// an account login over SASL next to the connection password: both are configured, PASS is still owed
+							cfg.Sasl = sasl.NewPlainClient("", "account", "account-password")
+							c.R.Class(fmt.Sprintf("reg|sasl-configured|pass=%v", pass != ""))
+						}
 						if tracking {
 							conn.EnableStateTracking()
 						}
@@ -392,6 +398,10 @@ var c18Tokens = []struct{ line, tok, class string }{
 	{"PING :tab\t", "tab\t", "trailing-tab"},
 	{"PING : ", " ", "only-space"},
 	{"PING :  both  ", "  both  ", "padded"},
+	{"PING :caf\xe9", "caf\xe9", "latin-1 byte"},
+	{"PING :\xff\xfe\x80cookie\xc3", "\xff\xfe\x80cookie\xc3", "bytes that are not UTF-8"},
+	{"PING :日本\xe6\x97", "日本\xe6\x97", "truncated multi-byte character"},
+	{"PING :\x01\x02\x7f\x1f", "\x01\x02\x7f\x1f", "control bytes"},
 }
 
 func runC18Ping(c *Ctx) {
